@@ -477,6 +477,10 @@ fn stale_probe<const D: usize, const F: usize, const V: usize>(base: &Arc<BaseIm
     for sd in w0.closed_dirs.iter().rev().take(2).cloned() {
         let h = hid(&sd);
         one("open_dir", h.clone(), &df, &|w| w.vm.open_dir(sd, "SUB").map(|_| ()).map_err(me), out);
+        one("open_dir(\".\")", h.clone(), &df, &|w| w.vm.open_dir(sd, ".").map(|_| ()).map_err(me), out);
+        one("find_directory_entry(missing name)", h.clone(), &[], &|w| w.vm.find_directory_entry(sd, "NOPE.BIN").map(|_| ()).map_err(me), out);
+        one("open_file_in_dir(ReadOnly)", h.clone(), &ff, &|w| w.vm.open_file_in_dir(sd, "README.TXT", Mode::ReadOnly).map(|_| ()).map_err(me), out);
+        one("delete_file_in_dir(missing name)", h.clone(), &[], &|w| w.vm.delete_file_in_dir(sd, "NOPE.BIN").map_err(me), out);
         one("find_directory_entry", h.clone(), &[], &|w| w.vm.find_directory_entry(sd, "README.TXT").map(|_| ()).map_err(me), out);
         one("iterate_dir", h.clone(), &[], &|w| w.vm.iterate_dir(sd, |_| {}).map_err(me), out);
         one(
@@ -508,6 +512,17 @@ fn stale_probe<const D: usize, const F: usize, const V: usize>(base: &Arc<BaseIm
             out,
         );
         one("write", h.clone(), &[], &|w| w.vm.write(sf, b"stale").map_err(me), out);
+        one(
+            "read(empty buffer)",
+            h.clone(),
+            &[],
+            &|w| {
+                let mut b = [0u8; 0];
+                w.vm.read(sf, &mut b).map(|_| ()).map_err(me)
+            },
+            out,
+        );
+        one("write(empty buffer)", h.clone(), &[], &|w| w.vm.write(sf, b"").map_err(me), out);
         one("flush_file", h.clone(), &[], &|w| w.vm.flush_file(sf).map_err(me), out);
         one("file_eof", h.clone(), &[], &|w| w.vm.file_eof(sf).map(|_| ()).map_err(me), out);
         one("file_seek_from_start", h.clone(), &[], &|w| w.vm.file_seek_from_start(sf, 0).map_err(me), out);
@@ -576,6 +591,7 @@ fn reentrancy_probe<const D: usize, const F: usize, const V: usize>(base: &Arc<B
                 }
             }
             results.push(("open_dir", vm.open_dir(dir, "SUB").map(|_| ()).map_err(me)));
+            results.push(("open_dir(\".\")", vm.open_dir(dir, ".").map(|_| ()).map_err(me)));
             results.push(("find_directory_entry", vm.find_directory_entry(dir, "README.TXT").map(|_| ()).map_err(me)));
             results.push(("iterate_dir", vm.iterate_dir(dir, |_| {}).map_err(me)));
             let mut st = [0u8; 32];
@@ -602,6 +618,9 @@ fn reentrancy_probe<const D: usize, const F: usize, const V: usize>(base: &Arc<B
                 let mut b = [0u8; 4];
                 results.push(("read", vm.read(f, &mut b).map(|_| ()).map_err(me)));
                 results.push(("write", vm.write(f, b"reentrant").map_err(me)));
+                let mut e0 = [0u8; 0];
+                results.push(("read(empty buffer)", vm.read(f, &mut e0).map(|_| ()).map_err(me)));
+                results.push(("write(empty buffer)", vm.write(f, b"").map_err(me)));
                 results.push(("flush_file", vm.flush_file(f).map_err(me)));
                 results.push(("file_eof", vm.file_eof(f).map(|_| ()).map_err(me)));
                 results.push(("file_seek_from_start", vm.file_seek_from_start(f, 0).map_err(me)));
